@@ -145,6 +145,7 @@ func (e *Engine) resetPath(prefix []Decision) {
 	e.clock = 0
 	e.poolPrivate = nil
 	e.syncMaps = nil
+	e.strViews = nil
 	e.fs = nil
 	e.fsTmpN = 0
 	e.par = nil
